@@ -181,7 +181,13 @@ Offered(s) ==
              ELSE {St("begin", 0, "", 0), St("sel", 0, "", 0), St("showcat", 0, "", 0)}
       \* a transaction that created the unique index does nothing else on k (the index is built at commit)
       dmlok == IF S.st = "tx" /\ S.cat.uidx /\ ~S.cat0.uidx THEN {m \in dml : m.k = "ins2"} ELSE dml
-      ddlok == IF S.st = "tx" /\ (S.wrote # {} \/ S.snapd) THEN {m \in ddl : m.k # "crUIdx"} ELSE ddl
+      \* generator restrictions (what the property does not speak about): a second extra column is never added; inside
+      \* one transaction each catalog component is changed at most once (creating and dropping the same index / table /
+      \* column in one transaction makes the engine's COMMIT fail with "index not found" - noted in docs/C13.md)
+      Comp(k) == CASE k = "dropChk" -> "chk" [] k \in {"crUIdx", "dropUIdx"} -> "uidx" [] k \in {"crWIdx", "dropWIdx"} -> "widx"
+                   [] k \in {"addCol", "renCol", "dropCol"} -> "col" [] OTHER -> "t2"
+      once == {m \in ddl : (m.k = "addCol" => mycat.col = "") /\ (S.st = "tx" => S.cat[Comp(m.k)] = S.cat0[Comp(m.k)])}
+      ddlok == IF S.st = "tx" /\ (S.wrote # {} \/ S.snapd) THEN {m \in once : m.k # "crUIdx"} ELSE once
   IN {m \in ctl \cup dmlok \cup ddlok : m.k \in Kinds}
 
 Init == /\ cat = Cat0 /\ rows = NoRows /\ rows2 = {} /\ cache = [on |-> FALSE, cat |-> Cat0] /\ ever = 0
